@@ -1,19 +1,116 @@
 (* C11: event-driven SIR with arbitrary delays = first-passage percolation.
-   (theorems are added below as they are proved in Proofs/EventSIRP*.v) *)
-From EoNV Require Import Prelude Samp Graph EventSIR.
+   Model: Model/EventSIR.v (fast_nonMarkov_SIR / fast_SIR / myQueue / percolation
+   builders written as the code is).  Proofs: Proofs/EventSIR{P,Inv,Main,Char,Top}.v.
 
+   Reading guide.  [esir_run tb g delay dur i0 r0 tmin tmax fuel] is the event loop of
+   fast_nonMarkov_SIR for the user rules [delay] (None = inf) and [dur], under tie
+   policy [tb] (the code's is [fifo], the heap counter); its result [sF] carries
+   status, rec_time, pred_inf_time and the transmissions list [tlog sF] (newest
+   first) from which the outputs are built.  [esir_okb] is the domain of the
+   property as a boolean: simple adjacency inside the node list, delays/durations
+   >= 0 on the graph, initial nodes in the graph and not initially recovered,
+   tmin < tmax (tmax = None is infinity).  [hedge g delay dur r0 u v d]: u->v is an
+   arc of H = {u->v | delay u v <= dur u} with v not initially recovered, d its
+   delay.  [hpath ... v c]: a path of cost c from the initially infected set to v
+   in H.  [ltmax tmax t]: t < tmax. *)
+From EoNV Require Import Prelude Samp Graph EventSIR EventSIRP EventSIRInv EventSIRMain EventSIRChar EventSIRTop.
+
+(* --- the main statement: for EVERY tie policy, every fuel >= |I0| + sum_v (deg v + 1):
+   the loop ends with an empty queue, fuel not exhausted, and
+   * v (not initially recovered) is infected iff tmin + dist_H(I0, v) < tmax;
+   * its infection time t in transmissions satisfies t = tmin + c for some H-path of
+     cost c and t <= tmin + c' for every H-path (i.e. t = tmin + distance), t < tmax;
+   * source None only for initial nodes at tmin; a recorded infector u has its own
+     entry tu, an H-arc u->v of delay d and t = tu + d (a shortest-path predecessor);
+   * rec_time v = t + dur v and v ends recovered iff that is < tmax, else infectious;
+   * initially recovered nodes stay recovered and are never infected; nobody twice. *)
+Theorem esir_first_passage : forall tb g delay dur i0 r0 tmin tmax fuel,
+  esir_okb g delay dur i0 r0 tmin tmax = true -> (esir_fuel g i0 <= fuel)%nat ->
+  exists sF, esir_run tb g delay dur i0 r0 tmin tmax fuel = Ok sF /\
+             qu sF = [] /\ percolation_spec g tmax delay dur tmin i0 r0 sF.
+Proof. exact EventSIRTop.esir_first_passage. Qed.
+Print Assumptions esir_first_passage.
+
+(* esir_sound / esir_closed (DESIGN A.1 J2, J4 at termination) on their own *)
+Theorem esir_sound_closed : forall tb g delay dur i0 r0 tmin tmax fuel,
+  esir_okb g delay dur i0 r0 tmin tmax = true -> (esir_fuel g i0 <= fuel)%nat ->
+  exists sF, esir_run tb g delay dur i0 r0 tmin tmax fuel = Ok sF /\
+    sound_log g delay dur tmin i0 r0 (tlog sF) /\
+    closed_log g tmax delay dur r0 (tlog sF) /\
+    init_log tmin i0 (tlog sF) /\
+    (forall e, ~ In e (qu sF)).
+Proof. exact EventSIRTop.esir_sound_closed_ok. Qed.
+Print Assumptions esir_sound_closed.
+
+(* the queue invariant (J0-J5) is preserved by every pop, for every tie policy *)
+Theorem esir_queue_invariant : forall tb g tmax delay dur tmin i0 r0,
+  (forall u v d, In u (gnodes g) -> In v (gadj g u) -> delay u v = Some d -> 0 <= d) ->
+  (forall u d, In u (gnodes g) -> dur u = Some d -> 0 <= d) ->
+  (forall u, In u (gnodes g) -> NoDup (gadj g u)) ->
+  ltmax tmax tmin ->
+  forall c s e q', Inv g tmax delay dur tmin i0 r0 c s -> qu s = e :: q' ->
+  (forall src v, qe e = ETrans src v -> In v (gnodes g)) ->
+  Inv g tmax delay dur tmin i0 r0 (qt e) (step_det tb g tmax delay dur e (set_qu s q')).
+Proof. exact step_det_inv. Qed.
+Print Assumptions esir_queue_invariant.
+
+(* generic: a sound and closed transmission log is the truncated shortest-path solution *)
+Theorem bellman_char : forall g tmax delay dur tmin i0 r0,
+  (forall u v d, In u (gnodes g) -> In v (gadj g u) -> delay u v = Some d -> 0 <= d) ->
+  forall l,
+  sound_log g delay dur tmin i0 r0 l -> closed_log g tmax delay dur r0 l -> init_log tmin i0 l ->
+  NoDup (map snd l) -> (forall t s v, In (t, s, v) l -> ltmax tmax t) ->
+  (forall v, infd l v <-> exists c, hpath g delay dur i0 r0 v c /\ ltmax tmax (tmin + c)) /\
+  (forall t s v, In (t, s, v) l ->
+     (exists c, hpath g delay dur i0 r0 v c /\ t == tmin + c) /\
+     (forall c', hpath g delay dur i0 r0 v c' -> t <= tmin + c')) /\
+  (forall t u v, In (t, Some u, v) l ->
+     exists tu su d, In (tu, su, u) l /\ hedge g delay dur r0 u v d /\ t == tu + d).
+Proof. exact bellman_char_log. Qed.
+Print Assumptions bellman_char.
+
+(* ties: any two tie policies (orders in which the queue meets simultaneous events)
+   give the same infection times and the same final statuses *)
+Theorem esir_tie_independent : forall tb1 tb2 g delay dur i0 r0 tmin tmax,
+  esir_okb g delay dur i0 r0 tmin tmax = true ->
+  exists s1 s2,
+    esir_run tb1 g delay dur i0 r0 tmin tmax (esir_fuel g i0) = Ok s1 /\
+    esir_run tb2 g delay dur i0 r0 tmin tmax (esir_fuel g i0) = Ok s2 /\
+    (forall v t1 a1 t2 a2, In (t1, a1, v) (tlog s1) -> In (t2, a2, v) (tlog s2) -> t1 == t2) /\
+    (forall v, stat s1 v = stS <-> stat s2 v = stS) /\
+    (forall v, stat s1 v = stR <-> stat s2 v = stR).
+Proof. exact EventSIRTop.esir_tie_independent. Qed.
+Print Assumptions esir_tie_independent.
+
+(* ---------------- non-vacuity ---------------- *)
 Definition g3 : graph :=
   mkGraph [0;1;2]%N (fun u => if N.eqb u 0 then [1;2]%N else if N.eqb u 1 then [0;2]%N else [0;1]%N)
           (fun u => if N.eqb u 0 then [1;2]%N else if N.eqb u 1 then [0;2]%N else [0;1]%N)
           false (fun _ _ => 1) (fun _ => 1) false false.
+Definition d3 (u v : node) : xtime := if N.eqb u 0 && N.eqb v 2 then Some 3 else Some 1.
+Definition r3 (u : node) : xtime := Some 2.
 
-(* non-vacuity: a triangle, delays 0->1 = 1, 0->2 = 3, 1->2 = 1, durations 2: node 2 is
-   reached through node 1 at tmin + 2, not directly at tmin + 3 (which exceeds the duration) *)
+(* a triangle, delays 0->1 = 1, 0->2 = 3 (> duration 2: not an arc of H), others 1:
+   the hypotheses hold, and node 2 is reached through node 1 at tmin + 2 *)
+Example esir_ok_example : esir_okb g3 d3 r3 [0%N] [] (1#2) (Some 5) = true.
+Proof. vm_compute. reflexivity. Qed.
+Print Assumptions esir_ok_example.
+
 Example esir_runs :
-  match esir_det fifo g3 (fun u v => if N.eqb u 0 && N.eqb v 2 then Some 3 else Some 1) (fun _ => Some 2)
-          [0%N] [] (1#2) None true (esir_fuel g3 [0%N]) with
+  match esir_det fifo g3 d3 r3 [0%N] [] (1#2) None true (esir_fuel g3 [0%N]) with
   | Ok (o, _) => map (fun r => Qred (fst r)) (so_rows o) = [1#2; 3#2; 5#2; 5#2; 7#2; 9#2]
   | Err _ => False
   end.
 Proof. vm_compute. reflexivity. Qed.
 Print Assumptions esir_runs.
+
+(* with tmax = 5 the recovery of node 2 (at 9/2) is still reported, with tmax = 9/2 it is not,
+   and node 2 is left infectious *)
+Example esir_truncation :
+  match esir_run fifo g3 d3 r3 [0%N] [] (1#2) (Some (9#2)) (esir_fuel g3 [0%N]) with
+  | Ok s => (stat s 2%N, stat s 1%N, map (fun e => (Qred (fst (fst e)), snd e)) (tlog s)) =
+            (stI, stR, [(5#2, 2%N); (3#2, 1%N); (1#2, 0%N)])
+  | Err _ => False
+  end.
+Proof. vm_compute. reflexivity. Qed.
+Print Assumptions esir_truncation.
